@@ -8,7 +8,7 @@ THEOREMS = ['FlexVerif.useful_exact', 'FlexVerif.cert_complete', 'FlexVerif.cert
 
 
 def shadowing_ruleset(rng):
-    rs = rules.gen_ruleset(rng, nrules=rng.choice([2, 3, 4, 5, 6]), p_trail=rng.choice([0.0, 0.0, 0.3]), p_bol=0.25,
+    rs = rules.gen_ruleset(rng, nrules=rng.choice([2, 3, 4, 5, 6]), p_trail=rng.choice([0.0, 0.3, 0.3]), p_bol=0.25,
                            depth=rng.choice([0, 1, 2, 2]))
     extra = []
     for _ in range(rng.choice([1, 2, 3])):
@@ -29,6 +29,9 @@ def shadowing_ruleset(rng):
         extra.append(r)
     for r in extra:
         rs.rules.insert(rng.randrange(len(rs.rules) + 1), r)
+    if rng.random() < 0.25:
+        # exhaustive rule set: the default rule becomes unreachable (matters with -s)
+        rs.rules.append({'scs': [], 'all': True, 'bol': False, 'head': ('cls', ('br', False, [('r', 0, rs.csize - 1)])), 'trail': None, 'dollar': False})
     return rs
 
 
@@ -90,6 +93,8 @@ def _job(job):
         false_w = warned - unmatchable
         if false_w:
             res['problems'].append('false warning (REJECT / variable trailing context scanner): rule(s) %s can be matched' % sorted(false_w))
+        if nodefault and dflt_warned and (n + 1) not in useful:
+            res['problems'].append('-s: false warning (REJECT / variable trailing context scanner): the default rule cannot be matched but flex says it can')
     else:
         if warned - unmatchable:
             res['problems'].append('false warning: rule(s) %s can be matched (some input selects them)' % sorted(warned - unmatchable))
@@ -131,7 +136,7 @@ def run(ctx):
     discharged = common.proof_audit(ctx, THEOREMS)
     for b in getattr(ctx, 'proof_broken', []):
         ctx.violation('proof obligation broken: ' + b, {'broken': b}, no_input=True)
-    n = {'quick': 240, 'thorough': 4000}[ctx.tier]
+    n = {'quick': 640, 'thorough': 6000}[ctx.tier]
     rng = ctx.rng('c17')
     with Pool(16) as pool:
         results = pool.map(_job, [(flex, work, i, rng.getrandbits(48)) for i in range(n)], chunksize=2)
